@@ -2,6 +2,8 @@
    or a camera reset. *)
 From Coq Require Import List ZArith Bool.
 From TR Require Import model.Ring model.Detector model.DetSpec proofs.DetC07 proofs.DetC09.
+(* constants and wiring read from the Go sources on every run *)
+From TR Require Import proofs.FactsDet.
 Import ListNotations.
 Open Scope Z_scope.
 
